@@ -78,6 +78,18 @@ def select(sym, lo, hi):
     raise IgnoreAttempt("selector outside declared range")
 
 
+def select_bisect(sym, lo, hi):
+    """As select(), with O(log n) solver-decided branches per path (for wide ranges such as switch-point
+    indices).  The declared range must have been assumed."""
+    while lo < hi:
+        mid = (lo + hi) // 2
+        if sym <= mid:
+            hi = mid
+        else:
+            lo = mid + 1
+    return lo
+
+
 def native():
     """Context manager: run a block natively (selector mode, all inputs already concrete)."""
     from crosshair.tracers import NoTracing
